@@ -12,6 +12,7 @@ def queries():
             qs.append(Query('addr_a%d_h%d' % (ar, h), SRC, 'h_addrheap', 'DAryAddressableIntHeap<uint8_t, arity %d, external priority table>, keys 0..5, %d symbolic operations (push, pop, extract_top, remove, update after priority change, build_heap on empty and non-empty heap, clear)' % (ar, h),
                             defs=['ARITY=%d' % ar, 'H=%d' % h], ll2c=['--alloc-cap', '16'], tiers=('quick', 'thorough') if quick_addr else ('thorough',), timeout=1800 if quick_addr else 7200, weight=h * 3))
     qs.append(Query('dary_a2_h3_gt', SRC, 'h_daryheap', 'DAryHeap arity 2, comparator >, 3 symbolic operations', defs=['ARITY=2', 'H=3', 'CMP_GREATER'], tiers=('thorough',), timeout=3600))
+    qs.append(Query('addr_a2_h2_growth', SRC, 'h_addrheap', 'addressable heap arity 2 without reserve (handle table and std::vector growth paths live), 2 symbolic operations', defs=['ARITY=2', 'H=2', 'NORESERVE'], ll2c=['--alloc-cap', '64'], tiers=('thorough',), timeout=3600))   # measured 22 min
     qs.append(Query('addr_a2_h3_growth', SRC, 'h_addrheap', 'addressable heap arity 2 without reserve (std::vector growth paths live), 3 symbolic operations', defs=['ARITY=2', 'H=3', 'NORESERVE'], tiers=('thorough',), timeout=3600))
     qs.append(Query('dary_a2_h3_growth', SRC, 'h_daryheap', 'DAryHeap arity 2 without pre-reserved capacity (std::vector growth paths live), 3 symbolic operations', defs=['ARITY=2', 'H=3', 'NORESERVE'], tiers=('thorough',), timeout=3600))
     for bits, ty in ((8, 'uint8_t'), (16, 'uint16_t'), (32, 'uint32_t'), (64, 'uint64_t')):
@@ -20,7 +21,7 @@ def queries():
             qs.append(Query('radix_bucket_r%d_u%d' % (radix, bits), SRC, 'h_radix_bucket',
                             'BucketComputation<%d, %s>: all limit <= m <= x <= y over the full %d-bit domain: index range, monotonicity, bucket 0, redistribution, bounds' % (radix, ty, bits),
                             defs=['RADIX=%d' % radix, 'RINT=' + ty], tiers=('quick', 'thorough') if quick else ('thorough',), timeout=900 if quick else 3600, unwind=70, max_unwind=80))
-    SCRIPTS_Q = ['ppok', 'ppsk', 'epto', 'pok', 'ppot']
+    SCRIPTS_Q = ['ppok', 'ppsk', 'epto', 'pok', 'ppot', 'pocppt']     # pocppt: reuse after clear() with a bucket pointer left over from before
     SCRIPTS_T = ['pppo', 'ppso', 'pospk', 'ppcpk', 'ppopt', 'pepsp', 'ppoppk', 'pposk', 'eesok', 'ptptpt']
     for radix in (2, 4, 16):
         for key in ('uint8_t', 'int8_t'):
